@@ -21,12 +21,14 @@ EXTENDS Naturals, FiniteSets, Sequences, TLC
 CONSTANTS
   Guids,               \* guids of the keys the host may issue
   RuleIds,             \* ids of rule documents (per endpoint); "" may be included (corner)
+  Contents,            \* versions of what a rule document lists (privileges, identities, assignments) under one id and mode
   Versions,            \* subset of {"1.0", "2.0"}
   ModeOf(_),           \* mode of the rule document with a given id (used when IdsIdentifyContent)
   IdsIdentifyContent,  \* TRUE: the host changes the id whenever the content (here: the mode) of a document changes
-  RulesKeyedOnIdOnly,  \* TRUE: the design before the repair -- an endpoint's rules are replaced only when the id changes;
-                       \* FALSE: also when the stored item differs from the one in the document (same id with another
-                       \* mode, an item with the empty id, an item with the empty id that was removed)
+  RulesKey,            \* when an endpoint's rules are replaced: "id" -- only when the rule id changes (the design before the
+                       \* repair); "idmode" -- also when the mode under the same id changes; "item" -- whenever the stored
+                       \* item differs from the one in the document (same id with another mode or other content, an item
+                       \* with the empty id, an item with the empty id that was removed)
   InitScenarios,       \* subset of {"fresh", "haskey", "unreadable", "rotated"}
   InitDocs,            \* status documents the host may start with
   MaxReconf, MaxFaults, MaxCrash, MaxDamage, MaxNotify,
@@ -48,9 +50,10 @@ vars == <<host, fs, pc, loc, mem, policy, act, gh>>
 Eps == {"ws", "imds", "ga"}
 Modes == {"disabled", "audit", "enforce"}
 Foreign == "gx"                      \* a guid this guest never held and cannot be given
-NoItem == [id |-> "", mode |-> "-"]  \* no rule document for an endpoint (the code's rule id is then "")
-Items == IF IdsIdentifyContent THEN {[id |-> r, mode |-> ModeOf(r)] : r \in RuleIds}
-         ELSE [id : RuleIds, mode : Modes]
+NoItem == [id |-> "", mode |-> "-", c |-> "-"]  \* no rule document for an endpoint (the code's rule id is then "")
+C1 == CHOOSE x \in Contents : TRUE
+Items == IF IdsIdentifyContent THEN {[id |-> r, mode |-> ModeOf(r), c |-> C1] : r \in RuleIds}
+         ELSE [id : RuleIds, mode : Modes, c : Contents]
 ItemMode(it) == IF it = NoItem THEN "disabled" ELSE it.mode
 NoRules == [e \in Eps |-> NoItem]
 
@@ -162,7 +165,9 @@ GetStatus(o) ==
 UpdRuleId(ep) ==
   /\ pc = RuleIdPc[ep]
   /\ LET id == Status.doc.rules[ep].id IN
-       IF mem.ruleId[ep] # id \/ (~RulesKeyedOnIdOnly /\ mem.rules[ep] # Status.doc.rules[ep])
+       IF mem.ruleId[ep] # id
+          \/ (RulesKey = "item" /\ mem.rules[ep] # Status.doc.rules[ep])
+          \/ (RulesKey = "idmode" /\ (mem.rules[ep].id # id \/ mem.rules[ep].mode # Status.doc.rules[ep].mode))
        THEN mem' = [mem EXCEPT !.ruleId[ep] = id] /\ pc' = SetRulesPc[ep] /\ UNCHANGED loc
        ELSE pc' = AfterRules(ep, loc.rulesChanged) /\ UNCHANGED <<mem, loc>>
   /\ Did("UpdRuleId", ep, "none")
